@@ -1,9 +1,8 @@
-\* exhaustive safety: all scenarios x all interleavings x <= 2 faults
 CONSTANTS
   MaxIdx = 6
   FaultKinds = {"short", "fetchErr", "quota", "fatal", "rootErr", "sthErr", "consErr", "cancel", "revoke"}
   KeepHist = FALSE
-  SrcSizes = {2, 4}
+  SrcSizes = {4}
   Growths = {0, 2}
   Batches = {1, 2}
   FetcherCounts = {1, 2}
@@ -11,7 +10,7 @@ CONSTANTS
   Modes = {"run", "master"}
   Conts = {TRUE, FALSE}
   Forks = {TRUE, FALSE}
-  MaxFaults = 2
+  MaxFaults = 1
   MaxRestarts = 1
 INIT MCInit
 NEXT Next
